@@ -291,19 +291,28 @@ def pigeonhole(ctx):
         if e[0] == "call":
             return ("call", e[1], tuple(expand(a, d - 1) for a in e[2]))
         return e
+    def norm_slot(e):
+        """seen[idx] in any spelling: index(seen, idx) | index_mut(seen, idx) | let slot = &mut seen[idx]; *slot"""
+        e = expand(e)
+        if e[0] == "index" and is_var(e[1], sv):
+            return e[2]
+        if e[0] == "call" and (e[1].endswith("::index") or e[1].endswith("::index_mut")) and is_var(strip_into_iter(e[2][0]), sv):
+            return e[2][1]
+        return None
     ifs = [s for s in lp[3] if s[0] == "if"]
     ok = False
     det = None
     idx_expr = None
-    if len(ifs) == 1 and ifs[0][1][0] == "index" and is_var(ifs[0][1][1], sv):
-        idx_expr = ifs[0][1][2]
+    if len(ifs) == 1:
+        idx_expr = norm_slot(ifs[0][1])
+    if idx_expr is not None:
         then_rm = [x for st in ifs[0][2] for e in T.stmt_exprs(st) for x in T.sx_calls(e, "Vec::remove")]
-        else_set = [st for st in ifs[0][3] if st[0] == "assign" and st[1][0] == "index" and is_var(st[1][1], sv) and st[1][2] == idx_expr and st[2] == ("lit", True)]
+        else_set = [st for st in ifs[0][3] if st[0] == "assign" and norm_slot(st[1]) is not None and expand(norm_slot(st[1])) == expand(idx_expr) and st[2] == ("lit", True)]
         # the removed position is the examined position
         elem = expand(("var", "pl", None))
         pos_same = False
         if then_rm and elem[0] == "call" and elem[1].endswith("::index"):
-            pos_same = is_var(strip_into_iter(then_rm[0][2][0]), "list") and then_rm[0][2][1] == elem[2][1]
+            pos_same = is_var(strip_into_iter(then_rm[0][2][0]), "list") and expand(then_rm[0][2][1]) == expand(elem[2][1])
         ok = len(then_rm) == 1 and len(else_set) == 1 and pos_same
         det = {"idx": T.sx_show(expand(idx_expr)), "removed": T.sx_show(then_rm[0]) if then_rm else None}
     obs.append(Ob(r, "remove-or-mark", ok, "each element is either removed (slot already occupied) or marks its slot occupied, on the same index", detail=det))
